@@ -225,7 +225,8 @@ Fixpoint run_handlers (s : st) (script : nat -> N -> hres) (k nh : nat) (n : N) 
 Definition pend_del (s : st) (n : N) : st :=
   set_pend s (delete n (pend_h s)) (base.filter (fun p : N * N => snd p <> n) (pend_i s)).
 
-(** deleteSingle: [Some s'] = done or missing, [None] = a handler failed *)
+(** deleteSingle: the header and its height index are deleted by ONE atomic write (deleteKeys: a
+    batch of its own on a plain datastore, the write batch of the pass on a context-aware one) *)
 Definition delete_single (s : st) (script : nat -> N -> hres) (nh : nat) (n : N) (log : list hcall)
   : st * list hcall * bool :=
   let oid := match d_idx s !! n with
@@ -236,7 +237,7 @@ Definition delete_single (s : st) (script : nat -> N -> hres) (nh : nat) (n : N)
   | None => (s, log, true)      (* counted as missing *)
   | Some id =>
     let '(log', ok) := run_handlers s script 0 nh n log in
-    if ok then (pend_del (write (write s [WDelH id]) [WDelI n]) n, log', true)
+    if ok then (pend_del (write s [WDelH id; WDelI n]) n, log', true)
     else (s, log', false)
   end.
 
